@@ -3,6 +3,7 @@ package vm
 import (
 	"fmt"
 	"io"
+	"os"
 
 	"github.com/goccy/go-json/internal/encoder"
 )
@@ -23,6 +24,9 @@ func DebugRun(ctx *encoder.RuntimeContext, b []byte, codeSet *encoder.OpcodeSet)
 
 		if err := recover(); err != nil {
 			w := ctx.Option.DebugOut
+			if w == nil {
+				w = os.Stdout
+			}
 			fmt.Fprintln(w, "=============[DEBUG]===============")
 			fmt.Fprintln(w, "* [TYPE]")
 			fmt.Fprintln(w, codeSet.Type)
